@@ -10,7 +10,7 @@ import tempfile
 import zlib
 
 from harness.common import Ck, coq_bytes, coq_list, coq_str, parse_coq_N_list
-from translate import c13_archname, c13_nested, c13_nullstr, c13_vpk
+from translate import c13_api, c13_archname, c13_nested, c13_nullstr, c13_vpk
 
 MANIFEST = dict(
     technique='Rocq proof: whole-history refinement of the executable VPK state machine to a plain map (invariant + induction over the '
@@ -47,7 +47,7 @@ MANIFEST = dict(
 )
 
 IMPORTS = ['Coq.Lists.List', 'Coq.NArith.NArith', 'SV.Fmt.VpkDir', 'SV.SM.Vpk', 'SV.Fmt.VpkArchName', 'SV.SM.VpkCorr', 'SV.Gen.VpkPlace_gen',
-           'SV.Gen.VpkArchName_gen', 'SV.Fmt.VpkNullStr', 'SV.Gen.VpkNullStr_gen', 'SV.SM.VpkNested', 'SV.Gen.VpkNested_gen']
+           'SV.Gen.VpkArchName_gen', 'SV.Fmt.VpkNullStr', 'SV.Gen.VpkNullStr_gen', 'SV.SM.VpkNested', 'SV.Gen.VpkNested_gen', 'SV.SM.VpkApi', 'SV.Gen.VpkApi_gen']
 PRE = 'Import ListNotations. Open Scope N_scope.\n'
 
 R_OK, R_RO, R_EXISTS, R_MISSING, R_BADNAME, R_BADIDX, R_BADDIR, R_EXC = 0, 1, 2, 3, 4, 5, 6, 9
@@ -209,7 +209,7 @@ def case_fname(cfg: dict) -> str:
     return cfg.get('base', 'pak') + ('_dir.vpk' if cfg['dir'] else '.vpk')
 
 
-def gen_case(rng: random.Random, big: bool = False, nops: int | None = None, small: bool = False) -> dict:
+def gen_case(rng: random.Random, big: bool = False, nops: int | None = None, small: bool = False, api: bool = True) -> dict:
     cfg = {'dir': rng.random() < 0.75, 'limit': rng.choice(LIMITS)}
     if rng.random() < 0.5:      # the archive's own file name: prefixes that end in characters of '_dir', contain '_dir' or '.vpk'
         cfg['base'] = rng.choice(BASES)
@@ -240,14 +240,18 @@ def gen_case(rng: random.Random, big: bool = False, nops: int | None = None, sma
             ops.append(('new', name, form)); used.append(name)
         elif r < 0.68:
             ops.append(('del', name, form))
-        elif r < 0.82:
+        elif r < (0.76 if api else 0.82):
             ops.append(('save',))
+        elif r < 0.79:       # leaving a `with vpk:` block, normally (saves when writable) or by an exception (must not save)
+            ops.append(('exit', rng.random() < 0.7))
+        elif r < 0.82:       # load_dirfile() on the same object: a reopen in the same mode
+            ops.append(('reload',))
         elif r < 0.85:
             ops.append(('add', rng.choice(BAD_NAMES), rng.choice('s2'), data, idx))
         else:
             ops.append(('reopen', rng.choice('rwaaa' if ops and ops[-1] == ('save',) else 'rwa')))
     # the property's observation point: write the directory, reopen
-    ops.append(('save',))
+    ops.append(('exit', True) if api and rng.random() < 0.15 else ('save',))
     ops.append(('reopen', rng.choice('ra')))
     return {'cfg': cfg, 'ops': ops}
 
@@ -304,13 +308,17 @@ def run_spec(case: dict) -> list[dict]:
             code = R_RO if mode == 'r' else R_OK
             if code == R_OK:
                 saved = (dict(cur), dict(place))
-        elif k == 'reopen':
-            if op[1] == 'w':
+        elif k == 'exit':        # VPK.__exit__: never an error; saves exactly when no exception is in flight and the mode is writable
+            if op[1] and mode != 'r':
+                saved = (dict(cur), dict(place))
+        elif k in ('reopen', 'reload'):
+            to = op[1] if k == 'reopen' else mode
+            if to == 'w':
                 cur, place, saved, mode = {}, {}, None, 'w'
             elif saved is None:
                 code = R_BADDIR
             else:
-                cur, place, mode = dict(saved[0]), dict(saved[1]), op[1]
+                cur, place, mode = dict(saved[0]), dict(saved[1]), to
         out.append({'code': code, 'map': dict(cur), 'place': dict(place)})
     return out
 
@@ -348,6 +356,10 @@ def classify_exc(e: Exception) -> int:
     return R_EXC
 
 
+class _Boom(Exception):
+    pass
+
+
 def run_impl(case: dict, want_files: bool = False) -> dict:
     """Run a history on the real implementation in a fresh directory."""
     from srctools.vpk import VPK
@@ -373,6 +385,20 @@ def run_impl(case: dict, want_files: bool = False) -> dict:
                     del vpk[make_form(op[1], op[2])]
                 elif k == 'save':
                     vpk.write_dirfile()
+                elif k == 'exit':
+                    if op[1]:
+                        with vpk:
+                            pass
+                    else:
+                        try:
+                            with vpk:
+                                raise _Boom()
+                        except _Boom:
+                            pass
+                        else:
+                            code, err = R_EXC, 'VPK.__exit__ swallowed the exception raised inside the with block'
+                elif k == 'reload':
+                    vpk.load_dirfile()
                 elif k == 'reopen':
                     try:
                         vpk = VPK(path, mode=op[1], dir_data_limit=cfg['limit'])
@@ -419,6 +445,40 @@ def _forms_resolve(vpk, info, full: str) -> bool:
         return all((f in vpk) and (vpk[f] is info) for f in (make_form(full, 's'), make_form(full, '2'), make_form(full, '3')))
     except Exception:      # noqa
         return False
+
+
+def listing_api_problem(vpk, fin: dict) -> tuple[str, str] | None:
+    """The other listing methods on the final object against the specification map `fin` ((dir, name, ext) -> bytes):
+    fileinfos(), folders(), filenames(ext=)/(folder=), fileinfos(ext=)/(folder=), folders(ext=), FileInfo.size.  The folder
+    argument is a string prefix of the stored folder path (that is what the code documents and does)."""
+    keys = sorted(fin)
+    full = {k: join_parts(*k) for k in keys}
+    exts = sorted({k[2] for k in keys}) + ['zz']
+    dirs = sorted({k[0] for k in keys})
+    prefixes = sorted({d[:j] for d in dirs for j in (1, len(d)) if d and len(d) < 200} | {'', 'zz'})
+    checks = [
+        ('fileinfos()', lambda: sorted(i.filename for i in vpk.fileinfos()), sorted(full.values())),
+        ('folders()', lambda: sorted(vpk.folders()), dirs),
+        ('FileInfo.size', lambda: sorted((i.filename, i.size) for i in vpk), sorted((full[k], len(fin[k])) for k in keys)),
+    ]
+    for e in exts:
+        sel = sorted(full[k] for k in keys if k[2] == e)
+        checks.append(('fileinfos(ext)', lambda e=e: sorted(i.filename for i in vpk.fileinfos(ext=e)), sel))
+        checks.append(('folders(ext)', lambda e=e: sorted(vpk.folders(ext=e)), sorted({k[0] for k in keys if k[2] == e})))
+        if e:       # filenames(ext='') means every extension
+            checks.append(('filenames(ext)', lambda e=e: sorted(vpk.filenames(ext=e)), sel))
+    for pre in prefixes:
+        sel = sorted(full[k] for k in keys if k[0].startswith(pre))
+        checks.append(('filenames(folder)', lambda pre=pre: sorted(vpk.filenames(folder=pre)), sel))
+        checks.append(('fileinfos(folder)', lambda pre=pre: sorted(i.filename for i in vpk.fileinfos(folder=pre)), sel))
+    for api, f, want in checks:
+        try:
+            got = f()
+        except Exception as e:      # noqa
+            return (api, f'{api} raised {type(e).__name__}: {e}'[:250])
+        if got != want:
+            return (api, f'{api} gives {str(got[:4])[:200]} ({len(got)} items), expected {str(want[:4])[:200]} ({len(want)} items)')
+    return None
 
 
 def strict_decode(raw: bytes) -> tuple[dict, bytes]:
@@ -517,6 +577,9 @@ def check_case(case: dict) -> tuple[str, str, int] | None:
     for k, ok in got['forms'].items():
         if not ok and not (k[2] == '' and '.' in k[1]):
             return ('name-forms-disagree', f'string/2-tuple/3-tuple forms of {join_parts(*k)!r} do not all resolve to the entry {k}', n)
+    lp = listing_api_problem(got['vpk'], fin)
+    if lp is not None:
+        return (f'listing-api:{lp[0]}', lp[1], n)
     # independent decode of the bytes on disk (the last operations are write_dirfile + reopen, so the file is the saved state)
     if exp[-1]['code'] == R_OK and case['ops'][-1][0] == 'reopen' and case['ops'][-1][1] != 'w':
         try:
@@ -637,7 +700,7 @@ def search(ck: Ck) -> None:
             ck.hist('refinement_premise', 'data values collision-free under CRC-32')
         sp = run_spec(case)
         for op, e in zip(case['ops'], sp):
-            ck.hist('oracle_ops', op[0] + (':' + op[1] if op[0] == 'reopen' else ''))
+            ck.hist('oracle_ops', op[0] + (':' + op[1] if op[0] == 'reopen' else (':normal' if op[1] else ':exception') if op[0] == 'exit' else ''))
             ck.hist('oracle_codes', e['code'])
             if op[0] in ('add', 'write') and e['code'] == R_OK:
                 ck.hist('oracle_placement', placement(cfg, op[3][1], op[4]))
@@ -675,6 +738,73 @@ def search(ck: Ck) -> None:
         r = check_case(case)
         if r is not None:
             ck.violation(r[0], r[1], {'case': case})
+
+
+FOLDER_TREES = [
+    {'a.txt': (1, 5), 'sub/b.txt': (2, 22), 'sub/deep/c.dat': (3, 3000), 'noext': (1, 1), 'sub/d.tar.gz': (2, 44), 'sub/deep/e': (0, 0)},
+    {'only.bin': (1, 70000)},
+    {'x/y/z/w.txt': (1, 9), 'x/y.txt': (2, 9), 'x/y/q.txt': (3, 1025)},
+]
+FOLDER_PREFIXES = ['', 'pre', 'pre/fix', 'pre\\fix', 'pre/']
+
+
+def folder_stream(ck: Ck) -> None:
+    """add_folder (every file below a directory is added under <prefix>/<relative folder>/<name>) and extract_all, against files on
+    disk: only searched, not modelled."""
+    from srctools.vpk import VPK
+    n = 0
+    for ti, tree in enumerate(FOLDER_TREES):
+        for pi, prefix in enumerate(FOLDER_PREFIXES):
+            n += 1
+            if not ck.thorough and not ck.tie_broken and (ti + pi) % 2:
+                continue
+            d = tempfile.mkdtemp(prefix='c13f_', dir=os.environ.get('VERIF_SCRATCH', '/var/tmp'))
+            try:
+                src, out = os.path.join(d, 'src'), os.path.join(d, 'out')
+                for rel, spec in tree.items():
+                    os.makedirs(os.path.dirname(os.path.join(src, rel)), exist_ok=True)
+                    with open(os.path.join(src, rel), 'wb') as f:
+                        f.write(gen_data(*spec))
+                is_dir, limit = bool((ti + pi) % 3), [4, None, 1024][pi % 3]
+                path = os.path.join(d, 'pak_dir.vpk' if is_dir else 'pak.vpk')
+                pn = '/'.join(x for x in prefix.replace('\\', '/').split('/') if x)
+                want = {}
+                for rel, spec in tree.items():
+                    rd, _, fn = rel.rpartition('/')
+                    want[ref_parts(('/'.join(x for x in (pn, rd) if x), fn))] = (dg(gen_data(*spec)), True)
+                ck.count('oracle_folder_cases')
+                ck.hist('folder_stream', f"{'dir' if is_dir else 'single'}/limit={limit}/prefix={prefix!r}")
+                case = {'tree': tree, 'prefix': prefix, 'dir': is_dir, 'limit': limit, 'how': 'checks.c13.folder_stream: VPK(mode="w").add_folder(src, prefix); write_dirfile(); VPK(mode="r"); extract_all(out)'}
+                try:
+                    v = VPK(path, mode='w', dir_data_limit=limit)
+                    v.add_folder(src, prefix)
+                    v.write_dirfile()
+                    v2 = VPK(path, mode='r', dir_data_limit=limit)
+                    got = observe(v2)
+                except Exception as e:      # noqa
+                    ck.violation('add_folder-exception', f'add_folder/write_dirfile/reopen raised {type(e).__name__}: {e}'[:300], {'folder_case': case})
+                    continue
+                if got != want:
+                    ck.violation('add_folder-mismatch', f'after add_folder(prefix={prefix!r}) + write_dirfile + reopen: missing {sorted(set(want) - set(got))[:3]} '
+                                 f'extra {sorted(set(got) - set(want))[:3]} differing {[k for k in want if k in got and got[k] != want[k]][:3]}', {'folder_case': case})
+                    continue
+                try:
+                    v2.extract_all(out)
+                    bad = []
+                    for (dr, nm, ex), (dgst, _) in want.items():
+                        with open(os.path.join(out, dr, nm + ('.' + ex if ex else '')), 'rb') as f:
+                            if dg(f.read()) != dgst:
+                                bad.append((dr, nm, ex))
+                    extra = sum(len(fs) for _, _, fs in os.walk(out)) - len(want)
+                except Exception as e:      # noqa
+                    ck.violation('extract_all-exception', f'extract_all raised {type(e).__name__}: {e}'[:300], {'folder_case': case})
+                    continue
+                if bad or extra:
+                    ck.violation('extract_all-mismatch', f'extract_all: {len(bad)} files with other contents {bad[:3]}, {extra} unexpected files', {'folder_case': case})
+                elif len(want) >= 1:
+                    ck.seen(('folder', ti, pi))
+            finally:
+                shutil.rmtree(d, ignore_errors=True)
 
 
 # ------------------------------------------------------------------------------------------------ Coq literals
@@ -725,7 +855,19 @@ def c_op(op) -> str | None:
         return f'{"OAdd" if k == "add" else "OWrite"} {key} (gen {op[3][0]} {op[3][1]}) {c_idx(op[4])}'
     if k == 'save':
         return 'OSave'
+    if k in ('exit', 'reload'):
+        return None
     return 'OReopen M' + op[1].upper()
+
+
+def c_xop(op) -> str | None:
+    """An operation of SM/VpkApi.v [xop]: the six of the state machine, leaving a with-block, load_dirfile() on the same object."""
+    if op[0] == 'exit':
+        return 'XExit ' + ('true' if op[1] else 'false')
+    if op[0] == 'reload':
+        return 'XReload'
+    c = c_op(op)
+    return None if c is None else f'XOp ({c})'
 
 
 def c_cfg(cfg) -> str:
@@ -751,9 +893,12 @@ def corr_machine(ck: Ck) -> None:
     lits = []
     kept = []
     for case in cases:
-        cops = [c_op(o) for o in case['ops']]
+        cops = [c_xop(o) for o in case['ops']]
         if any(c is None for c in cops):
             continue
+        for o in case['ops']:
+            if o[0] in ('exit', 'reload'):
+                ck.hist('machine_api_ops', o[0] + ((':normal' if o[1] else ':exception') if o[0] == 'exit' else ''))
         try:
             got = run_impl(case)
         except Exception as e:      # noqa
@@ -775,8 +920,8 @@ def corr_machine(ck: Ck) -> None:
         if len(got['steps'][-1]['obs']) >= 1:
             ck.seen(('corr', repr(case)))
     bad: list[tuple[int, int]] = []
-    fn = ('(fun c : vcfg * list op * list N * list obs_t * (N * N) * list (N * (N * N)) => '
-          'let \'(cf, ops, tr, fin, dsk, ars) := c in check_case cf ops tr fin dsk ars)')
+    fn = ('(fun c : vcfg * list xop * list N * list obs_t * (N * N) * list (N * (N * N)) => '
+          'let \'(cf, ops, tr, fin, dsk, ars) := c in check_xcase g_exit_table cf ops tr fin dsk ars)')
     for lo in range(0, len(lits), 250):
         part = lits[lo:lo + 250]
         vals = ck.coq_eval(IMPORTS, [f'map {fn} {coq_list(part)}'], name='vpkcorr', preamble=PRE)
@@ -786,10 +931,10 @@ def corr_machine(ck: Ck) -> None:
             return
         res = parse_coq_N_list(vals[0])
         bad += [(lo + i, r) for i, r in enumerate(res) if r != 0]
-    what = {1: 'model write_dirfile overflow', 2: 'per-operation codes/summaries', 3: 'final per-file contents/verify',
+    what = {1: 'outside the model (write_dirfile overflow, failing load_dirfile() on the same object, __exit__ table not understood)', 2: 'per-operation codes/summaries', 3: 'final per-file contents/verify',
             4: '_dir file bytes (length, crc32)', 5: 'archive files (length, crc32)'}
     ck.obligation('correspondence:machine', not bad,
-                  f'{len(lits)} histories, model SM/Vpk.v (vm_compute, real CRC-32) vs srctools.vpk on temp directories: '
+                  f'{len(lits)} histories, model SM/Vpk.v + SM/VpkApi.v xrun over the translated __exit__ table (vm_compute, real CRC-32) vs srctools.vpk on temp directories: '
                   f'{len(bad)} disagreements' + (f'; first: {what.get(bad[0][1])}' if bad else ''))
     if kept:
         ck.sample({'history': kept[min(12, len(kept) - 1)], 'compared': 'codes, per-file (len,crc32,verify), _dir bytes, archives'})
@@ -1206,7 +1351,8 @@ def run(ck: Ck) -> None:
     ok_t = ck.translate('VpkArchName_gen', c13_archname.translate) and ok_t
     ok_t = ck.translate('VpkNullStr_gen', c13_nullstr.translate) and ok_t
     ok_t = ck.translate('VpkNested_gen', c13_nested.translate) and ok_t
-    built = ok_t and ck.build(['Props/C13.vo', 'SM/VpkCorr.vo', 'Gen/VpkPlace_gen.vo', 'Gen/VpkArchName_gen.vo', 'Gen/VpkNullStr_gen.vo', 'Gen/VpkNested_gen.vo'])
+    ok_t = ck.translate('VpkApi_gen', c13_api.translate) and ok_t
+    built = ok_t and ck.build(['Props/C13.vo', 'SM/VpkCorr.vo', 'Gen/VpkPlace_gen.vo', 'Gen/VpkArchName_gen.vo', 'Gen/VpkNullStr_gen.vo', 'Gen/VpkNested_gen.vo', 'Gen/VpkApi_gen.vo'])
     if built:
         ck.theorems('Props/C13.v')
         ck.instance_obligations(IMPORTS + ['SV.Fmt.VpkNameSplit', 'SV.Props.C13'], {
@@ -1246,6 +1392,22 @@ def run(ck: Ck) -> None:
             'del_checks_writable_before_touching': 'g_del_checks_writable_first',
             'del_missing_file_raises_keyerror': 'g_del_keyerror',
             'nested_dicts_indexed_ext_folder_name_everywhere': 'g_nest_order_ext_folder_name',
+            # API around the state machine (Gen/VpkApi_gen.v): premises of c13_api_refines_map / c13_with_block_saves, guards, listing walks
+            'exit_saves_iff_no_exception_and_writable': 'exit_table_ok g_exit_table',
+            'open_mode_writable_is_w_and_a': 'mode_table_ok g_writable_r g_writable_w g_writable_a',
+            'check_writable_raises_iff_not_writable': 'g_check_writable_raises_iff_not_writable',
+            'guard_before_any_effect_new_file': 'g_guard_new_file',
+            'guard_before_any_effect_add_file': 'g_guard_add_file',
+            'guard_before_any_effect_add_folder': 'g_guard_add_folder',
+            'guard_before_any_effect_delitem': 'g_guard_delitem',
+            'guard_before_any_effect_write_dirfile': 'g_guard_write_dirfile',
+            'guard_before_any_effect_fileinfo_write': 'g_guard_fileinfo_write',
+            'no_other_method_stores_into_the_archive': 'g_no_other_mutating_method',
+            'load_dirfile_empties_the_object_before_reading': 'g_load_dirfile_resets_first',
+            'listing_iter_walks_every_file': 'g_walk_iter',
+            'listing_len_counts_every_file': 'g_walk_len',
+            'listing_filenames_default_walks_every_file': 'g_walk_filenames',
+            'listing_fileinfos_default_walks_every_file': 'g_walk_fileinfos',
             'tree_strings_all_go_through_the_codec': 'andb g_tree_strings_read_by_iter_nullstr g_tree_strings_written_by_write_nullstring',
         }, name='vpkinst')
         import time as _t
@@ -1256,6 +1418,7 @@ def run(ck: Ck) -> None:
                 print(f'  [timing] {fn.__name__}: {_t.time() - t0:.1f}s'); t0 = _t.time()
     t0 = __import__('time').time()
     search(ck)
+    folder_stream(ck)
     if os.environ.get('C13_TIMING'):
         print(f'  [timing] search: {__import__("time").time() - t0:.1f}s')
     keys = {v['key'] for v in ck.violations}
@@ -1287,6 +1450,9 @@ def replay(data: dict) -> int:
             print('    impl  :', s['obs'])
             print('    expect:', {k: (dg(v), True) for k, v in e['map'].items()})
         print('filenames():', got['names'])
+        return 0
+    if 'folder_case' in r:
+        print(r['folder_case'])
         return 0
     if 'fname' in r:
         dp, sites = arch_sites_impl(r['fname'], list(r['indexes']))
